@@ -130,6 +130,19 @@ func genC04(seed uint64, run int, tier string) Scenario {
 			sc.Dev.Modes = append(sc.Dev.Modes, q)
 			op.Events = []EventSpec{{Input: c, Response: `Proceed\?`}, {Input: "y"}}
 		}
+		// other per-operation options around WithPrivilegeLevel, in random order
+		if op.Kind != "acquire" {
+			if r.IntN(3) == 0 {
+				op.TimeoutUS = sc.TimeoutOpsUS * 2
+			}
+			if r.IntN(3) == 0 && (op.Kind == "netconfigs" || op.Kind == "netsendmulti") {
+				op.Stop = true
+			}
+			if r.IntN(4) == 0 {
+				op.FailedOp = []string{"%% never %%"}
+			}
+			op.OptSeed = r.Uint64()
+		}
 		sc.Ops = append(sc.Ops, op)
 	}
 	sc.Ops = append(sc.Ops, OpSpec{Kind: "close"})
